@@ -67,6 +67,7 @@ Theorem C06_enclosures_sound (w : fw) (rnd_add rnd_sub rnd_mul : R -> R -> R) (r
   Forall2 (Forall2 (Forall2 encl)) (fst (fst ri)) (fst (fst rr)) /\
   Forall2 (Forall2 encl) (snd (fst ri)) (snd (fst rr)) /\ Forall2 (Forall2 encl) (snd ri) (snd rr).
 Proof. exact (fexec_recurrent w rnd_add rnd_sub rnd_mul rnd_dot). Qed.
+Print Assumptions C06_enclosures_sound.
 (* relu exactly, tanh within 8u: the activation hypotheses are satisfiable *)
 Theorem C06_relu_ok w : act_ok w ARelu (fun x => Rmax x 0).
 Proof. exact (relu_act_ok w). Qed.
